@@ -109,6 +109,7 @@ from xandikos.store import (
 )
 
 from .icalendar import CalendarFilter, ICalendarFile
+from .store.config import FILENAME as CONFIG_FILENAME
 from .store.git import GitStore, TreeGitStore
 from .vcard import VCardFile
 
@@ -409,6 +410,13 @@ class StoreBasedCollection:
     async def create_member(
         self, name: str, contents: Iterable[bytes], content_type: str
     ) -> tuple[str, str]:
+        if name == CONFIG_FILENAME:
+            # The store keeps the collection's own configuration under
+            # this name; it is not a member and can not be uploaded.
+            raise webdav.PreconditionFailure(
+                "{DAV:}resource-must-be-null",
+                f"{name} is reserved for the collection configuration.",
+            )
         try:
             (name, etag) = self.store.import_one(name, content_type, contents)
         except InvalidFileContents as exc:
